@@ -83,8 +83,9 @@ def build_flux(rng, kind, enc, spt, tracks, images, res, tight=None):
     exact = rng.random() < 0.5 or bool(tight)
     desc['lut_exact_length'] = exact
     desc['v3_opcodes_inserted'] = oplog_total
+    desc['last_block_padded'] = rng.random() < 0.6
     return flux.hfe_file(packed[0], packed[1] if sides == 2 else None, 2 if enc == 'fm' else 0,
-                         1 if kind == 'hfe1' else 3, lut_exact=exact), desc
+                         1 if kind == 'hfe1' else 3, lut_exact=exact, pad_last=desc['last_block_padded']), desc
 
 
 def listing(d):
